@@ -14,3 +14,12 @@ prop("C03", "property-based testing (proptest) with backwards-constructed divide
 prop("C05", "property-based testing (proptest) over structured shift/rotate amounts against reference-integer shifts and an explicit bit permutation; exhaustive at 8 bits",
      "Generated search for all 72 types: every shift form (checked/overflowing/wrapping/strict/unchecked/unbounded, << >> operators and const twins) against (x*2^s) mod 2^W and floor(x/2^s); rotations against an explicit permutation of the W-bit pattern for every width incl. non-powers of two, plus inverse laws. Found and repaired the rotate amount-masking defect (known_findings.json).",
      COMMON_NOTE)
+prop("C06", "property-based testing (proptest) against bit-vector loops; exhaustive at 8 and 16 bits",
+     "Generated search for all 72 types with patterns built from digit-aligned runs of 0/1 bits (the early-exit branches of the scanning loops) and power-of-two neighbourhoods; logic operators and const twins, all counts, bits/bit/set_bit/power_of_two, is_power_of_two, next_power_of_two forms, swap_bytes/reverse_bits and their involutions against straight loops over the bit vector. 8-bit and both 16-bit configurations enumerated completely for unary operations.",
+     COMMON_NOTE)
+prop("C07", "property-based testing (proptest) with comparison-directed pair construction against the order of reference integers; exhaustive at 8 bits",
+     "Generated search for all 72 types over pairs that are equal, differ in exactly one digit, share leading digits, differ only in the sign bit or by +-1; every comparison operator, Ord/PartialOrd method and const twin, min/max/clamp, Eq iff identical digits, equal hashes for values reached via different computations, signum/is_positive/is_negative.",
+     COMMON_NOTE)
+prop("C08", "property-based testing (proptest) with overflow-threshold construction against capped exact and modular reference exponentiation / repeated-multiplication logarithm; exhaustive slices at 8 bits",
+     "Generated search for all 72 types: (base, exponent) pairs at the overflow threshold (floor(maxbits/log2|a|)+-2, k-th roots of the bound +-1), exponents up to u32::MAX, negative bases with odd/even exponents; ilog/ilog2/ilog10 at exact powers b^k and b^k+-1 for small, power-of-two, multi-digit and maximal bases, invalid arguments for the checked forms; dbg build catches internal overflow panics in the iilog recursion.",
+     COMMON_NOTE)
